@@ -721,5 +721,5 @@ package io
 //@   requires len(buf) == 20 && 0 <= i && i <= 18446744073709551615
 //@   let i0 = i
 //@   modifies buf[*]
-//@   loop 1 invariant [room_for_what_is_left] 0 <= off && off <= 20 && 0 <= i && i < pow10(off) && i <= i0 && (i < i0 ==> off < 20)
+//@   loop 1 invariant [room_for_what_is_left] 0 <= off && off <= 20 && 0 <= i && i < pow10(off) && i <= i0 && (i < i0 ==> off < 20) && (i == i0 ==> off == 20)
 //@   ensures [offset_within_the_buffer] 0 <= off && off <= 20 && (i0 == 0 ==> off == 20) && (i0 > 0 ==> off < 20)
